@@ -321,6 +321,30 @@ def sessionLoop (c : TrainCfg) (offset : Nat) : Except Err (List StepEv) :=
     { step := step, batch := step - offset, logged := (step + 1) % c.logEvery == 0, epoch := step / c.spe,
       ckpt := (step + 1) % c.spc == 0 || step + 1 == c.numSteps }))
 
+/-- The loop of `train()` as the code runs it, one iteration at a time: `train_metrics` (a list) grows by one entry per step
+    and is emptied by every logged step, which hands it to `update_metrics` first. -/
+structure LoopSt where
+  metrics : Nat                    -- len(train_metrics)
+  evs : List StepEv
+  windows : List (Nat × Nat)       -- (logged step, len(train_metrics) handed to `update_metrics`)
+deriving DecidableEq, Repr
+
+/-- one iteration of `for step, batch in zip(range(step_offset, num_steps), train_dt_iter)` -/
+def loopStep (c : TrainCfg) (offset : Nat) (st : LoopSt) (step : Nat) : LoopSt :=
+  let m := st.metrics + 1                                    -- train_metrics.append(metrics)
+  let logged := (step + 1) % c.logEvery == 0
+  let ev : StepEv := { step := step, batch := step - offset, logged := logged, epoch := step / c.spe,
+                       ckpt := (step + 1) % c.spc == 0 || step + 1 == c.numSteps }
+  if logged then ⟨0, st.evs ++ [ev], st.windows ++ [(step, m)]⟩   -- update_metrics(state, step, train_metrics, t0); train_metrics = []
+  else ⟨m, st.evs ++ [ev], st.windows⟩
+
+/-- the first `n` iterations of the loop started at `offset` -/
+def loopRunN (c : TrainCfg) (offset n : Nat) : LoopSt :=
+  (List.range' offset n).foldl (loopStep c offset) ⟨0, [], []⟩
+
+/-- the whole loop -/
+def loopRun (c : TrainCfg) (offset : Nat) : LoopSt := loopRunN c offset (c.numSteps - offset)
+
 structure SessionOut where
   offset : Nat
   events : List StepEv
